@@ -199,6 +199,15 @@ def main():
         lines.append(f'UNDECIDED obligation={u}/{ob} reason={why[:220]}')
     for m, tb in load_errors:
         lines.append(f'UNDECIDED contracts module {m} failed to load: {tb.splitlines()[-1][:200]}')
+    # ------------------------------------------------ thorough tier: guards of the trusted base
+    guards = {}
+    if tier == 'thorough' and prop in ('C01', 'C05', 'C11', 'C15', 'C16', 'C10'):
+        r1 = subprocess.run(['python3-vt', os.path.join(ROOT, 'selftest', 'validate_axioms.py')], capture_output=True, text=True)
+        guards['axioms_vs_ground_truth'] = {'exit': r1.returncode, 'summary': r1.stdout.strip().splitlines()[-1] if r1.stdout.strip() else r1.stderr[-300:]}
+        r2 = subprocess.run(['sh', os.path.join(ROOT, 'lemmas', 'check_lemmas.sh')], capture_output=True, text=True)
+        guards['lean_lemmas'] = {'exit': r2.returncode, 'summary': (r2.stdout.strip().splitlines() or [r2.stderr[-300:]])[-1]}
+        if r1.returncode or r2.returncode:
+            print('checker problem: a guard of the trusted base failed: ' + json.dumps(guards), file=sys.stderr); return 3
     # ------------------------------------------------ evidence
     n_ob = len(obligations); n_ok = sum(1 for o in obligations if o[2] == 'proved')
     backends = {}
@@ -227,6 +236,8 @@ def main():
         'samples': [res[u.name].get('sample') for u in my_units[:3] if res[u.name].get('sample')] +
                    [x for s in (bdoc or {}).get('scenarios', {}).values() for x in s.get('samples', [])[:1]],
         'exhaustive': False,
+        'trusted_base_guards_run': guards,
+        'solver_retries': sum((res[u.name].get('obligations', {}).get(ob, {}).get('retries', 0) or 0) for u in my_units for ob in res[u.name].get('obligations', {})),
     }
     if not cov['samples']: cov['samples'] = ['(no sample)']
     ev = {'property_id': prop, 'tier': tier, 'seed': seed, 'level': level, 'coverage': cov,
